@@ -19,6 +19,10 @@ def gen_cases(run):
     yield d1_geom()
     for i in range(n):
         g = synth.random_geom(rng, max_src=run.scale(36, 60))
+        if i % 9 == 4:
+            # pixels that are not square, with another height / width in each image: the resolution ratio differs between rows and columns
+            # (the reference pixels are the taller ones, so that the reference still covers the source)
+            g.ref_yscale, g.src_yscale = [(2.0, 1.0), (1.5, 1.0), (1.0, 0.5), (4.0, 2.0), (3.0, 1.0)][(i // 9) % 5]
         proc = rng.choice(['auto', 'auto', 'ref', 'src'])
         ov = rng.choice([(0, 0), (1, 1), (1, 1), (2, 3), (3, 1), (4, 5)])
         yield g, proc, ov, dict(target=rng.choice([1, 2, 4, 8, 16, 32, 60]), jitter=rng.uniform(0.8, 1.3))
